@@ -32,6 +32,14 @@ def _base_configs():
     c.append(dict(tag="heat-cool", phases=[ph], D=1e-16, se=1e-5, temp=("array", [0, H(100.0), H(200.0)], [1000, 1004, 1000]), calls=[(200.0, 0.005)],
                   iter="euler", constraints=dict(maxNonIsothermalDT=10)))
     c.append(dict(tag="ramp-function", phases=[ph], D=1e-16, se=1e-5, temp=("function", [0, H(300.0)], [1000, 990]), calls=[(300.0, 0.01)], iter="euler"))
+    # a model object that had another grain boundary energy in an earlier life (set up, factors read, reset): grain-boundary type sites
+    gbp = dict(name="beta", gamma=0.05, site="grain boundaries")
+    c.append(dict(tag="reused-model-gb-energy-lowered", phases=[gbp], D=1e-16, gb=0.02, prelude=dict(gb=0.06, span=2.0), calls=[(100.0, 0.02)], iter="euler"))
+    c.append(dict(tag="reused-model-gb-energy-raised", phases=[dict(gbp, site="grain edges")], D=1e-16, gb=0.06, prelude=dict(gb=0.0), calls=[(100.0, 0.02)], iter="rk4"))
+    # elastic strain energy (constant per precipitate volume): taken off the driving force once, in the binary and in the multicomponent path
+    c.append(dict(tag="binary-strain-energy", phases=[dict(ph, strainE=3e7)], D=1e-16, calls=[(100.0, 0.02)], iter="euler"))
+    c.append(dict(tag="multi-strain-energy", multi=True, phases=[dict(ph, strainE=3e7)], calls=[(0.6, 0.02), (0.6, 0.02)], iter="euler"))
+    c.append(dict(tag="multi-strain-energy-vm-ratio-rk4", multi=True, phases=[dict(ph, strainE=2e7, VmB=1.2e-5)], calls=[(1.0, 0.02)], iter="rk4"))
     # non-spherical precipitates with a constant aspect ratio (thermodynamic and kinetic shape factors enter Rcrit, the Gibbs-Thomson
     # energy of every size class and the growth rate)
     c.append(dict(tag="needle-ar3", phases=[dict(ph, shape=("needle", 3.0))], D=1e-16, calls=[(100.0, 0.02)], iter="euler"))
